@@ -108,7 +108,12 @@ def make_replay(ctx, o):
 
 
 def native_search(ctx, o):
-    if ':path' in o.id and 'cpp_gen.' not in o.id or 'engine:' in o.id:
+    if ':path' in o.id and 'cpp_gen.' not in o.id:
         return gen_props.native_search(ctx, o, 'C19')
+    if 'engine:' in o.id:
+        # the run itself ended undecided: both corpora (comment texts, then generated files)
+        class _C:
+            id = 'cpp_gen.Comment'
+        return [native_search(ctx, _C), gen_props.native_search(ctx, o, 'C19')]
     return {'script': 'native/replay_text.py', 'input': {'search': [{'function': 'Comment', 'text': t} for t in (
         'a', '', 'a\nb', ' lead', 'x\r\ny', 'p\x0bq', 'u v', '\n\n', 'tab\t\nz ', 'a\x85b', 'l1\x1cl2', '\n x \n')]}}
